@@ -22,7 +22,20 @@ def _gen(seed, index, profile):
     # the scenario stream stays what it was)
     if g.contextual and random.Random("%s/int/%s/%s" % (seed, profile.get("name", ""), index)).random() < 0.2:
         g.cfg["int_ctx"] = True
+    # a quarter of the neighbourhood-policy scenarios run with several (thread) workers: both sides of a relation
+    # use the same configuration, and results do not depend on n_jobs (C05).  TreeBandit with randomised leaf policies
+    # is excluded: its workers share the bandit's generator (known finding K3), so thread timing would leak in.
+    r2 = random.Random("%s/jobs/%s/%s" % (seed, profile.get("name", ""), index))
+    if g.npk is not None and g.cfg.get("n_jobs", 1) == 1 and not _k3_cfg(g.cfg) and r2.random() < 0.25:
+        g.cfg["n_jobs"] = r2.choice([2, 3])
+        g.cfg["backend"] = "threading"
     return rng, g
+
+
+def _k3_cfg(cfg):
+    return (cfg.get("np") or {}).get("k") == "tree" and (
+        cfg["lp"]["k"] in ("thompson", "softmax", "popularity", "random", "lints") or
+        (cfg["lp"]["k"] in ("greedy", "lingreedy") and cfg["lp"].get("eps", 0) > 0))
 
 
 def _tol(cfg):
@@ -918,7 +931,8 @@ def lsh_vs_collisions(scn):
         res = T.apply_op(b, op)
         if res[0] != "ok":
             return "query raised %r" % (res,)
-        scale = 4.0
+        # any positive factor, tiny ones included (powers of two: the products are exact)
+        scale = [4.0, 2.0 ** -40, 2.0 ** -30, 2.0 ** 25, 0.5][(len(hist_ops) + len(op["c"])) % 5]
         res2 = T.apply_op(b2, dict(op, c=[[scale * x for x in row] for row in op["c"]]))
         if not T.is_linear(cfg) and not T.same(res, res2, 0.0):
             return "predict_expectations(%g * X) = %r differs from predict_expectations(X) = %r" % (scale, res2, res)
